@@ -114,14 +114,16 @@ Theorem C15_flush_finishes_member :
 Proof. exact flush_finishes_member_proof. Qed.
 Print Assumptions C15_flush_finishes_member.
 
-(* One-shot GZCompress of any record (any size, growing output string) yields
-   one complete gzip member for exactly that record. *)
+(* One-shot GZCompress of any record (ANY size: growing output string, and input
+   beyond the 2^32-1 bytes zlib takes in one call is fed in pieces) yields one
+   complete gzip member for exactly that record. *)
 Theorem C15_gzcompress_roundtrip :
   forall (world estate : Type) (enew : world -> kind -> estate * world)
          (ecall : kind -> estate -> Z -> list Z -> N -> cres estate)
          (member : kind -> list Z -> list Z -> Prop)
          (EInv : kind -> estate -> list Z -> list Z -> Prop) (epend : estate -> nat),
     (forall w k, EInv k (fst (enew w k)) [] []) ->
+    ecall_run_contract estate ecall EInv epend ->
     ecall_finish_contract estate ecall member EInv epend ->
     forall (w : world) (from : list Z),
       exists f0 out,
